@@ -382,6 +382,7 @@ func merge(prop, tier string, seed int64, results []*subResult, wall time.Durati
 		Traces      int64             `json:"traces_validated_against_impl"`
 		Exhaustive  bool              `json:"exhaustive"`
 		Outcomes    int               `json:"distinct_outcomes"`
+		OutcomeCnt  map[string]int64  `json:"outcome_counts,omitempty"`
 		Bounds      map[string]any    `json:"bounds"`
 		Extra       map[string]int64  `json:"counters"`
 		Notes       []string          `json:"notes,omitempty"`
@@ -389,7 +390,7 @@ func merge(prop, tier string, seed int64, results []*subResult, wall time.Durati
 		Subs        []map[string]any  `json:"sub_checks"`
 	}
 	c := cov{Exhaustive: true, Bounds: map[string]any{}, Extra: map[string]int64{}}
-	outcomes := map[string]bool{}
+	outcomes := map[string]int64{}
 	known := map[string]*KnownHit{}
 	var viol []Failure
 	var violCount int64
@@ -421,8 +422,8 @@ func merge(prop, tier string, seed int64, results []*subResult, wall time.Durati
 			if !rep.Exhaustive {
 				c.Exhaustive = false
 			}
-			for k := range rep.Outcomes {
-				outcomes[k] = true
+			for k, v := range rep.Outcomes {
+				outcomes[k] += v
 			}
 			for k, v := range rep.Extra {
 				c.Extra[k] += v
@@ -459,6 +460,9 @@ func merge(prop, tier string, seed int64, results []*subResult, wall time.Durati
 		c.Subs = append(c.Subs, sub)
 	}
 	c.Outcomes = len(outcomes)
+	if len(outcomes) <= 300 {
+		c.OutcomeCnt = outcomes
+	}
 	c.Rule = plan.Rule[prop]
 	if len(c.Samples) > 8 {
 		c.Samples = c.Samples[:8]
